@@ -430,3 +430,17 @@ def class_attr(cnode, name):
         elif isinstance(st, ast.AnnAssign) and is_name(st.target, name):
             return st.value
     return None
+
+
+CACHING_DECORATORS = ("lru_cache", "cache", "cached_property", "memoize", "memoized", "cached", "functools.lru_cache", "functools.cache", "functools.cached_property")
+
+
+def caching_decorators(func):
+    """Decorators of func that memoise its results (by equality of arguments)."""
+    out = []
+    for d in getattr(func, "decorator_list", []):
+        t = d.func if isinstance(d, ast.Call) else d
+        nm = dotted(t)
+        if nm and (nm in CACHING_DECORATORS or nm.split(".")[-1] in CACHING_DECORATORS):
+            out.append(d)
+    return out
